@@ -158,7 +158,7 @@ HARNESSES = [
       doc='whole chain: numpy.random is never touched'),
     H('H-layer-monitor', h_layer_monitor, quick=[('asc',)], thorough=[('asc',), ('desc',)], cover=['mixture engaged'], float_model='R',
       doc='mixture path: explicit concrete random_state, numpy.random never touched'),
-    H('H-history', h_history, quick=[(1,)], thorough=[(1,), (2,)], cover=['ran'], float_model='R',
+    H('H-history', h_history, quick=[(1,), (2,)], thorough=[(1,), (2,)], cover=['ran'], float_model='R',
       doc='2-run history independence within one process'),
 ]
 get_harness = make_get(HARNESSES)
